@@ -125,6 +125,9 @@ class ShapelyPolygon(Domain):
         n = self._compute_number_of_points(n, d, params)
         points = self._create_points_in_bounding_box(n, device)
         points = self._delete_outside(points)
+        if len(points) > n:  # the box grid can contain too many points
+            keep = torch.randperm(len(points), device=device)[:n]
+            points = points[keep]
         if not d:
             # if a number of points if specified we have to make sure
             # to sample the right amount of points
@@ -159,9 +162,6 @@ class ShapelyPolygon(Domain):
                 n=(n - len(bary_coords)), device=device
             )
             points = torch.cat((bary_coords, random_points.as_tensor), dim=0)
-        elif len(bary_coords) > n:  # the box grid can contain too many points
-            keep = torch.randperm(len(bary_coords), device=device)[:n]
-            points = bary_coords[keep]
         return points
 
     def _compute_number_of_points(self, n, d, params):
